@@ -424,6 +424,51 @@ func VH_C05_typed(variant int) {
 // VH_C05_repeated_compound: a variable occurring twice over compound (map) values must
 // find EQUAL values. (Witness harness of an open finding: the matcher re-matches the
 // first binding as a partial pattern, so the answer depends on the map iteration order.)
+// VH_C05_typed_init: the caller's initial bindings hold Go-typed containers under a
+// variable the pattern does not mention; after the call the caller's map holds the very
+// same values, with their Go types (a library caller may rely on them).
+func VH_C05_typed_init(variant int) {
+	b := &vhB{prefix: "t", lite: true}
+	s1, s2 := b.str(), b.str()
+	bs := Bindings{}
+	switch variant {
+	case 0:
+		bs["?z"] = Map{"k": s1}
+	case 1:
+		bs["?z"] = []string{s1, s2}
+	case 2:
+		bs["?z"] = map[string]interface{}{"d": Map{"k": s1}}
+	case 3:
+		bs["?z"] = []Map{{"k": s1}}
+	}
+	p := map[string]interface{}{"a": "?x"}
+	d := map[string]interface{}{"a": s2}
+	got, err := Match(nil, p, d, bs)
+	vassert(err == nil, "no-error-in-fragment")
+	vassert(len(got) == 1, "sound-and-complete")
+	ok := false
+	switch variant {
+	case 0:
+		m, is := bs["?z"].(Map)
+		ok = is && len(m) == 1 && vdeepEq(m["k"], s1)
+	case 1:
+		xs, is := bs["?z"].([]string)
+		ok = is && len(xs) == 2 && xs[0] == s1 && xs[1] == s2
+	case 2:
+		m, is := bs["?z"].(map[string]interface{})
+		if is {
+			in, is2 := m["d"].(Map)
+			ok = is2 && len(in) == 1 && vdeepEq(in["k"], s1)
+		}
+	case 3:
+		xs, is := bs["?z"].([]Map)
+		ok = is && len(xs) == 1 && vdeepEq(xs[0]["k"], s1)
+	}
+	vassert(ok, "initial-bindings-unmodified")
+	vassert(len(bs) == 1, "initial-bindings-unmodified")
+	vreach("end")
+}
+
 func VH_C05_repeated_compound() {
 	b := &vhB{prefix: "d", lite: true}
 	s1, s2, s3 := b.str(), b.str(), b.str()
